@@ -12,7 +12,17 @@
 //!   D. `plan_archive_merge` on generated segment populations against an
 //!      interval model per destination seeded with `[0, write_position)`.
 //!   E. `ArchiveManager::compact` after real appends: every appended record's
-//!      bytes must be unchanged on disk.
+//!      bytes must be unchanged on disk and every object must decode to the
+//!      same payload afterwards (same manager, after a later append, and through
+//!      a manager that opened the directory); archives with an unused tail make
+//!      the truncation branch run.
+//!   F. Merge end-to-end: populations from the real `SegmentAllocator` on real
+//!      segment files, plan judged and then executed with `move_data`; every live
+//!      object compared at its original and planned location; one segment file
+//!      per case defragmented with `extract_compact_segment`.
+//!   G. The extract-compact journal (`ExtractorCompactorBackup`): a recovery reads
+//!      exactly the recorded segment indices.
+//!   B'. `validate_spans` with offsets beyond 32 bits.
 //!
 //! Not judged: plans that move less than an optimal packer would; spans
 //! reaching beyond EOF, an empty span list, zero-length spans lying inside (or
@@ -21,8 +31,9 @@
 //! observations only.
 
 use cascette_client_storage::storage::ArchiveManager;
-use cascette_client_storage::storage::compaction::{CompactionFileMover, DataSpan, extract_compact_segment, plan_archive_merge, validate_spans};
-use cascette_client_storage::storage::segment::{SegmentHeader, SegmentInfo, SegmentState};
+use cascette_client_storage::storage::compaction::{CompactionFileMover, CompactionPlan, DataSpan, ExtractorCompactorBackup, extract_compact_segment, plan_archive_merge, validate_spans};
+use cascette_client_storage::storage::segment::{SEGMENT_HEADER_SIZE, SegmentAllocator, SegmentHeader, SegmentInfo, SegmentState, segment_data_path};
+use cascette_formats::blte::CompressionMode;
 use serde_json::{Value, json};
 use std::collections::HashMap;
 use std::fs::OpenOptions;
@@ -800,8 +811,12 @@ fn run_plan_case(ctx: &Ctx, c: &PlanCase, cnt: &mut Cnt) {
     }
     cnt.add("plan.segments_total", c.segs.len() as u64);
     cnt.add("plan.moves_total", plan.moves.len() as u64);
+    judge_plan(ctx, c, &plan, cnt);
+}
 
-    // interval model per destination, seeded with [0, write_position)
+/// Interval model per destination, seeded with [0, write_position). Returns
+/// false when the plan refutes the statement (already reported).
+fn judge_plan(ctx: &Ctx, c: &PlanCase, plan: &CompactionPlan, cnt: &mut Cnt) -> bool {
     let mut used: HashMap<u16, Vec<(u64, u64)>> = HashMap::new();
     let mut moved_out: Vec<u16> = Vec::new();
     let first_dest = plan.moves.first().map(|m| m.dest_segment);
@@ -810,11 +825,11 @@ fn run_plan_case(ctx: &Ctx, c: &PlanCase, cnt: &mut Cnt) {
         let n = c.segs.len();
         if m.source_segment as usize >= n || m.dest_segment as usize >= n {
             ctx.violation("C18|plan_archive_merge|move-references-unknown-segment", "a move names a segment index outside the population", json!({"case": plan_detail(c), "move_index": mi, "move": [m.source_segment, m.source_offset, m.dest_segment, m.dest_offset, m.length]}));
-            return;
+            return false;
         }
         if m.source_segment == m.dest_segment {
             ctx.violation("C18|plan_archive_merge|source-equals-destination", "a move copies a segment onto itself", json!({"case": plan_detail(c), "move_index": mi}));
-            return;
+            return false;
         }
         let (dfrozen, dwp) = c.segs[m.dest_segment as usize];
         let (sfrozen, swp) = c.segs[m.source_segment as usize];
@@ -829,7 +844,7 @@ fn run_plan_case(ctx: &Ctx, c: &PlanCase, cnt: &mut Cnt) {
                 "a move's destination range intersects [0, write_position) of the destination segment",
                 json!({"case": plan_detail(c), "move_index": mi, "move": {"src": m.source_segment, "src_off": m.source_offset, "dst": m.dest_segment, "dst_off": m.dest_offset, "len": m.length}, "dest_write_position": dwp}),
             );
-            return;
+            return false;
         }
         let list = used.entry(m.dest_segment).or_default();
         if m.length > 0 && list.iter().any(|&(x, y)| a < y && x < b) {
@@ -838,7 +853,7 @@ fn run_plan_case(ctx: &Ctx, c: &PlanCase, cnt: &mut Cnt) {
                 "two moves write intersecting ranges of the same destination segment",
                 json!({"case": plan_detail(c), "move_index": mi, "range": [a, b], "earlier_ranges": list.clone()}),
             );
-            return;
+            return false;
         }
         if b > c.segment_size {
             ctx.violation(
@@ -846,7 +861,7 @@ fn run_plan_case(ctx: &Ctx, c: &PlanCase, cnt: &mut Cnt) {
                 "a move ends beyond segment_size",
                 json!({"case": plan_detail(c), "move_index": mi, "range": [a, b], "segment_size": c.segment_size}),
             );
-            return;
+            return false;
         }
         list.push((a, b));
         // observations outside the statement
@@ -898,6 +913,637 @@ fn run_plan_case(ctx: &Ctx, c: &PlanCase, cnt: &mut Cnt) {
     if ctx.want_sample() && plan.moves.len() >= 2 && c.segs.len() <= 8 {
         ctx.sample(json!({"part":"plan","case":plan_detail(c),"moves":plan.moves.iter().map(|m| json!([m.source_segment, m.dest_segment, m.dest_offset, m.length])).collect::<Vec<_>>() }));
     }
+    true
+}
+
+
+// ---------------------------------------------------------------------------
+// part F: merge end-to-end — populations built by the real SegmentAllocator on
+// real segment files, the plan executed with CompactionFileMover::move_data
+// ---------------------------------------------------------------------------
+
+#[derive(Debug, Clone)]
+enum MStep {
+    Alloc(u64),
+    Freeze(u16),
+    Thaw(u16),
+    FreezeAll,
+}
+
+impl MStep {
+    fn encode(&self) -> String {
+        match self {
+            MStep::Alloc(n) => format!("a{n}"),
+            MStep::Freeze(i) => format!("f{i}"),
+            MStep::Thaw(i) => format!("t{i}"),
+            MStep::FreezeAll => "F".into(),
+        }
+    }
+    fn decode(s: &str) -> Option<MStep> {
+        let (h, r) = s.split_at(1.min(s.len()));
+        Some(match h {
+            "a" => MStep::Alloc(r.parse().ok()?),
+            "f" => MStep::Freeze(r.parse().ok()?),
+            "t" => MStep::Thaw(r.parse().ok()?),
+            "F" => MStep::FreezeAll,
+            _ => return None,
+        })
+    }
+}
+
+#[derive(Debug, Clone)]
+struct MergeCase {
+    salt: u64,
+    max_segments: u16,
+    steps: Vec<MStep>,
+    /// drop the allocator and rebuild the population with load_existing (all frozen, write position = file length)
+    reload: bool,
+    threshold: f64,
+    size_sel: u8,
+    budget: usize,
+    /// afterwards defragment one segment with extract_compact_segment, keeping this share (n/8) of its objects
+    defrag_keep: u8,
+}
+
+fn gen_merge_case(rng: &mut Rng) -> MergeCase {
+    let max_segments = *rng.pick(&[2u16, 3, 4, 6, 8, 12]);
+    let n_steps = rng.urange(4, 60);
+    let big_ok = rng.chance(1, 3);
+    let mut steps = Vec::with_capacity(n_steps + 1);
+    for _ in 0..n_steps {
+        steps.push(match rng.below(20) {
+            0..=11 => MStep::Alloc(match rng.below(10) {
+                0 => 0,
+                1 => 1,
+                2..=6 => rng.range(2, 4000),
+                7 | 8 => rng.range(4000, 40_000),
+                _ => {
+                    if big_ok {
+                        rng.range(131_000, 300_000) // longer than the 128 KiB I/O buffer
+                    } else {
+                        rng.range(2, 4000)
+                    }
+                }
+            }),
+            12..=15 => MStep::FreezeAll,
+            16 | 17 => MStep::Freeze(rng.below(12) as u16),
+            _ => MStep::Thaw(rng.below(12) as u16),
+        });
+    }
+    steps.push(MStep::FreezeAll);
+    if rng.chance(1, 6) {
+        // leave the last segment(s) thawed
+        steps.pop();
+    }
+    MergeCase {
+        salt: rng.next_u64(),
+        max_segments,
+        steps,
+        reload: rng.chance(1, 3),
+        threshold: *rng.pick(&[0.3, 0.5, 0.75, 1.0, 1.5, 2.0]),
+        size_sel: rng.below(6) as u8,
+        budget: *rng.pick(&BUDGETS),
+        defrag_keep: rng.below(9) as u8,
+    }
+}
+
+fn merge_detail(c: &MergeCase) -> Value {
+    json!({"kind":"merge","salt":c.salt.to_string(),"max_segments":c.max_segments,"steps":c.steps.iter().map(MStep::encode).collect::<Vec<_>>(),"reload":c.reload,"threshold":c.threshold,"size_sel":c.size_sel,"budget":c.budget,"defrag_keep":c.defrag_keep})
+}
+
+struct LiveObj {
+    seg: u16,
+    off: u64,
+    len: u64,
+    salt: u64,
+}
+
+fn write_at(path: &Path, off: u64, data: &[u8]) -> std::io::Result<()> {
+    use std::io::{Seek, SeekFrom, Write};
+    let mut f = OpenOptions::new().write(true).open(path)?;
+    f.seek(SeekFrom::Start(off))?;
+    f.write_all(data)
+}
+
+fn run_merge_case(ctx: &Ctx, c: &MergeCase, cnt: &mut Cnt) {
+    let Ok(tmp) = tempfile::tempdir() else {
+        ctx.inconclusive("tempdir failed");
+        return;
+    };
+    let dir = tmp.path().to_path_buf();
+    let path_hash: [u8; 16] = Rng::derive(c.salt, 1).array::<16>();
+    let mut alloc = SegmentAllocator::new(dir.clone(), path_hash, c.max_segments);
+    let mut objs: Vec<LiveObj> = Vec::new();
+    cnt.add("merge.cases", 1);
+    for (si, st) in c.steps.iter().enumerate() {
+        match st {
+            MStep::Alloc(size) => match alloc.allocate(*size) {
+                Ok(a) => {
+                    let (off, len) = (u64::from(a.file_offset), *size);
+                    // the harness relies on allocations being disjoint and after the header; if they
+                    // are not, that is the allocator's business (C04) and this case cannot be judged
+                    if off < SEGMENT_HEADER_SIZE as u64 || objs.iter().any(|o| o.seg == a.segment_index && o.len > 0 && len > 0 && off < o.off + o.len && o.off < off + len) {
+                        cnt.add("merge.allocator_handed_out_overlapping_space(observation, case not judged)", 1);
+                        return;
+                    }
+                    let salt = mix64(c.salt, si as u64 + 10);
+                    if let Err(e) = write_at(&segment_data_path(&dir, a.segment_index), off, &content(len as usize, salt)) {
+                        ctx.inconclusive(&format!("cannot write into a segment file: {e}"));
+                        return;
+                    }
+                    objs.push(LiveObj { seg: a.segment_index, off, len, salt });
+                    cnt.add("merge.allocations", 1);
+                }
+                Err(_) => cnt.add("merge.allocate_refused_at_max_segments", 1),
+            },
+            MStep::Freeze(i) => {
+                let n = alloc.segment_count().max(1) as u16;
+                alloc.freeze(*i % n);
+            }
+            MStep::Thaw(i) => {
+                let n = alloc.segment_count().max(1) as u16;
+                alloc.thaw(*i % n);
+            }
+            MStep::FreezeAll => {
+                for i in 0..alloc.segment_count() as u16 {
+                    alloc.freeze(i);
+                }
+            }
+        }
+    }
+    if c.reload {
+        alloc = SegmentAllocator::new(dir.clone(), path_hash, c.max_segments);
+        if let Err(e) = alloc.load_existing() {
+            ctx.inconclusive(&format!("load_existing failed on files the allocator created: {e}"));
+            return;
+        }
+        cnt.add("merge.populations_from_load_existing", 1);
+    } else {
+        cnt.add("merge.populations_from_live_allocator", 1);
+    }
+    let infos: Vec<SegmentInfo> = alloc.segments().to_vec();
+    let segs: Vec<(bool, u64)> = infos.iter().map(|s| (s.state == SegmentState::Frozen, s.write_position)).collect();
+    let max_wp = segs.iter().map(|s| s.1).max().unwrap_or(0).max(1);
+    let min_wp = segs.iter().map(|s| s.1).min().unwrap_or(0);
+    let sum_wp: u64 = segs.iter().map(|s| s.1).sum();
+    let segment_size = match c.size_sel {
+        0 => max_wp,
+        1 => max_wp * 2,
+        2 => (sum_wp / 2).max(max_wp),
+        3 => sum_wp.max(1),
+        4 => max_wp + min_wp,
+        _ => 0x4000_0000,
+    };
+    // files before
+    let mut before: HashMap<u16, Vec<u8>> = HashMap::new();
+    for s in &infos {
+        match std::fs::read(segment_data_path(&dir, s.index)) {
+            Ok(b) => {
+                before.insert(s.index, b);
+            }
+            Err(_) => {
+                // a gap in the numbering after load_existing: no file, write position of the placeholder
+                before.insert(s.index, Vec::new());
+            }
+        }
+    }
+    let pc = PlanCase { segment_size, threshold: c.threshold, segs: segs.clone() };
+    let plan = match std::panic::catch_unwind(std::panic::AssertUnwindSafe(|| plan_archive_merge(&infos, c.threshold, segment_size))) {
+        Ok(p) => p,
+        Err(p) => {
+            ctx.violation("C18|plan_archive_merge|panic", "plan_archive_merge panicked", json!({"case": plan_detail(&pc), "panic": vh::monitor::watchdog::panic_message(&p)}));
+            return;
+        }
+    };
+    let h = mix64(fnv64(b"merge"), fnv64(merge_detail(c).to_string().as_bytes()));
+    if plan.moves.is_empty() {
+        ctx.eval();
+        cnt.add("merge.empty_plans", 1);
+    } else {
+        ctx.eval_nontrivial(h);
+        cnt.add("merge.nonempty_plans", 1);
+        cnt.add("merge.moves_total", plan.moves.len() as u64);
+    }
+    if !judge_plan(ctx, &pc, &plan, cnt) {
+        return;
+    }
+    // execute the plan on the real files, in order
+    let mut mover = CompactionFileMover::new(c.budget);
+    let buf = mover.buffer_size() as u64;
+    let mut bytes_planned = 0u64;
+    for (mi, m) in plan.moves.iter().enumerate() {
+        let src_len = before.get(&m.source_segment).map_or(0, Vec::len) as u64;
+        if m.source_offset + m.length > src_len {
+            // (write position beyond the bytes on disk: cannot be executed; outside the statement)
+            cnt.add("merge.move_reads_beyond_source_file(observation, case not executed)", 1);
+            return;
+        }
+        let r = (|| -> std::io::Result<_> {
+            let mut fs_ = OpenOptions::new().read(true).open(segment_data_path(&dir, m.source_segment))?;
+            let mut fd = OpenOptions::new().read(true).write(true).open(segment_data_path(&dir, m.dest_segment))?;
+            Ok(mover.move_data(&mut fs_, m.source_offset, &mut fd, m.dest_offset, m.length))
+        })();
+        match r {
+            Ok(Ok(())) => {}
+            Ok(Err(e)) => {
+                ctx.violation("C18|merge-execution|move_data-failed-for-a-planned-move", "move_data failed for a move whose source range lies inside the source segment file", json!({"case": merge_detail(c), "move_index": mi, "error": e.to_string()}));
+                return;
+            }
+            Err(e) => {
+                ctx.inconclusive(&format!("cannot open segment files: {e}"));
+                return;
+            }
+        }
+        bytes_planned += m.length;
+        if m.length > buf {
+            cnt.add("merge.boundary.moves_longer_than_io_buffer", 1);
+        }
+    }
+    if mover.bytes_moved() != bytes_planned {
+        ctx.violation("C18|merge-execution|bytes_moved-differs-from-planned-bytes", "bytes_moved() after executing the plan is not the sum of the planned lengths", json!({"case": merge_detail(c), "bytes_moved": mover.bytes_moved(), "planned": bytes_planned}));
+    }
+    let mut after: HashMap<u16, Vec<u8>> = HashMap::new();
+    for s in &infos {
+        after.insert(s.index, std::fs::read(segment_data_path(&dir, s.index)).unwrap_or_default());
+    }
+    let is_dest = |i: u16| plan.moves.iter().any(|m| m.dest_segment == i);
+    let is_src = |i: u16| plan.moves.iter().any(|m| m.source_segment == i);
+    // (1) nothing a segment already used was overwritten
+    for s in &infos {
+        let (b, a) = (&before[&s.index], &after[&s.index]);
+        let used = (s.write_position as usize).min(b.len());
+        if a.len() < used || a[..used] != b[..used] {
+            let role = if is_dest(s.index) { "destination" } else if is_src(s.index) { "source" } else { "uninvolved-segment" };
+            ctx.violation(
+                &format!("C18|merge-execution|bytes-a-segment-already-used-changed|{role}"),
+                "after executing the merge plan the bytes below a segment's write position differ from before",
+                json!({"case": merge_detail(c), "segment": s.index, "write_position": s.write_position, "first_diff": a.iter().zip(b.iter()).take(used).position(|(x, y)| x != y)}),
+            );
+            return;
+        }
+        if is_dest(s.index) && a.len() as u64 > segment_size {
+            ctx.violation("C18|merge-execution|destination-file-larger-than-segment-size", "after executing the merge plan a destination file is larger than segment_size", json!({"case": merge_detail(c), "segment": s.index, "len": a.len(), "segment_size": segment_size}));
+            return;
+        }
+    }
+    // (2) every move's bytes arrived and were not overwritten by a later move
+    for (mi, m) in plan.moves.iter().enumerate() {
+        let src = &before[&m.source_segment][m.source_offset as usize..(m.source_offset + m.length) as usize];
+        let d = &after[&m.dest_segment];
+        let (x, y) = (m.dest_offset as usize, (m.dest_offset + m.length) as usize);
+        if d.len() < y || &d[x..y] != src {
+            ctx.violation(
+                &format!("C18|merge-execution|moved-bytes-differ-from-source|{}", if m.length > buf { "length>io-buffer" } else { "length<=io-buffer" }),
+                "after executing the merge plan a move's destination range does not hold the source's original bytes",
+                json!({"case": merge_detail(c), "move_index": mi, "move": {"src": m.source_segment, "src_off": m.source_offset, "dst": m.dest_segment, "dst_off": m.dest_offset, "len": m.length}}),
+            );
+            return;
+        }
+    }
+    // (3) every live object: unchanged where it was, and readable where the plan put it
+    let mut relocated = 0u64;
+    for o in &objs {
+        let want = content(o.len as usize, o.salt);
+        let a = &after[&o.seg];
+        let (x, y) = (o.off as usize, (o.off + o.len) as usize);
+        if a.len() < y || a[x..y] != want[..] {
+            ctx.violation("C18|merge-execution|live-object-bytes-differ-after-merge|at-original-location", "a live object's bytes at its original location changed while the merge plan was executed", json!({"case": merge_detail(c), "object": {"segment": o.seg, "offset": o.off, "len": o.len}}));
+            return;
+        }
+        for m in plan.moves.iter().filter(|m| m.source_segment == o.seg && m.source_offset <= o.off && o.off + o.len <= m.source_offset + m.length) {
+            let d = &after[&m.dest_segment];
+            let nx = (m.dest_offset + (o.off - m.source_offset)) as usize;
+            if d.len() < nx + o.len as usize || d[nx..nx + o.len as usize] != want[..] {
+                ctx.violation("C18|merge-execution|live-object-bytes-differ-after-merge|at-planned-location", "a live object cannot be read back intact at the location the merge plan moved it to", json!({"case": merge_detail(c), "object": {"segment": o.seg, "offset": o.off, "len": o.len}, "moved_to": {"segment": m.dest_segment, "offset": nx}}));
+                return;
+            }
+            relocated += 1;
+        }
+    }
+    cnt.add("merge.live_objects_compared_at_original_location", objs.len() as u64);
+    cnt.add("merge.live_objects_compared_at_planned_location", relocated);
+    if !plan.moves.is_empty() {
+        cnt.add("merge.plans_executed_on_real_segment_files", 1);
+    }
+
+    // defragment one segment file (extract-compact mode): spans = header + a subset of its objects
+    let Some(seg) = infos.iter().filter(|s| objs.iter().any(|o| o.seg == s.index)).map(|s| s.index).nth((c.salt % 7) as usize % infos.len().max(1)).or_else(|| objs.first().map(|o| o.seg)) else { return };
+    // (zero-length objects are left out: an empty span at the start of another span is the class the
+    // statement leaves open, see part A "Ambiguous")
+    let mut keep: Vec<&LiveObj> = objs.iter().filter(|o| o.seg == seg && o.len > 0 && (mix64(o.salt, 3) % 8) < u64::from(c.defrag_keep)).collect();
+    keep.sort_by_key(|o| (o.off, o.len));
+    let path = segment_data_path(&dir, seg);
+    let file_before = std::fs::read(&path).unwrap_or_default();
+    let mut spans: Vec<DataSpan> = vec![DataSpan { offset: 0, length: SEGMENT_HEADER_SIZE as u64 }];
+    spans.extend(keep.iter().map(|o| DataSpan { offset: o.off, length: o.len }));
+    if c.salt & 1 == 1 {
+        spans.reverse();
+    }
+    let mut mover = CompactionFileMover::new(c.budget);
+    let r = (|| -> std::io::Result<_> {
+        let mut f = OpenOptions::new().read(true).write(true).open(&path)?;
+        Ok(extract_compact_segment(&mut f, &mut spans, &mut mover))
+    })();
+    let Ok(r) = r else {
+        ctx.inconclusive("cannot open a segment file");
+        return;
+    };
+    let file_after = std::fs::read(&path).unwrap_or_default();
+    cnt.add("defrag.segment_files_compacted", 1);
+    match r {
+        Ok(saved) => {
+            let mut pos = SEGMENT_HEADER_SIZE;
+            if file_after.len() < pos || file_after[..pos] != file_before[..pos] {
+                ctx.violation("C18|defragment-segment|segment-header-changed", "after extract-compact of a segment file (header listed as first live span) the 480-byte header differs", json!({"case": merge_detail(c), "segment": seg}));
+                return;
+            }
+            for o in &keep {
+                let want = content(o.len as usize, o.salt);
+                if file_after.len() < pos + o.len as usize || file_after[pos..pos + o.len as usize] != want[..] {
+                    ctx.violation("C18|defragment-segment|live-object-bytes-differ-at-new-offset", "after extract-compact of a segment file a kept object is not found intact at the offset its predecessors' lengths add up to", json!({"case": merge_detail(c), "segment": seg, "object": {"old_offset": o.off, "len": o.len, "new_offset": pos}}));
+                    return;
+                }
+                pos += o.len as usize;
+            }
+            if file_after.len() != pos || saved != (file_before.len() - file_after.len()) as u64 {
+                ctx.violation("C18|defragment-segment|length-or-bytes-saved-wrong", "after extract-compact of a segment file its length is not header + kept objects, or bytes saved is not old - new length", json!({"case": merge_detail(c), "segment": seg, "len_after": file_after.len(), "want_len": pos, "saved": saved, "len_before": file_before.len()}));
+                return;
+            }
+            cnt.add("defrag.live_objects_compared_at_new_offset", keep.len() as u64);
+            if keep.iter().any(|o| o.len as usize > mover.buffer_size()) {
+                cnt.add("defrag.boundary.object_longer_than_io_buffer", 1);
+            }
+            if saved > 0 {
+                cnt.add("defrag.segments_that_shrank", 1);
+            }
+        }
+        Err(e) => {
+            // header + disjoint allocations never overlap
+            ctx.violation("C18|defragment-segment|non-overlapping-set-refused", "extract-compact refused the header span plus disjoint allocations of a segment file", json!({"case": merge_detail(c), "segment": seg, "error": e.to_string(), "file_untouched": file_after == file_before}));
+        }
+    }
+}
+
+// ---------------------------------------------------------------------------
+// part G: the extract-compact journal (ExtractorCompactorBackup)
+// ---------------------------------------------------------------------------
+
+#[derive(Debug, Clone)]
+enum JOp {
+    Record(u16),
+    Save,
+    /// replace the handle by ExtractorCompactorBackup::load (what recovery does)
+    Recover,
+    /// replace the handle by ExtractorCompactorBackup::new (file stays)
+    Fresh,
+    Remove,
+}
+
+impl JOp {
+    fn encode(&self) -> String {
+        match self {
+            JOp::Record(i) => format!("r{i}"),
+            JOp::Save => "s".into(),
+            JOp::Recover => "l".into(),
+            JOp::Fresh => "n".into(),
+            JOp::Remove => "x".into(),
+        }
+    }
+    fn decode(s: &str) -> Option<JOp> {
+        let (h, r) = s.split_at(1.min(s.len()));
+        Some(match h {
+            "r" => JOp::Record(r.parse().ok()?),
+            "s" => JOp::Save,
+            "l" => JOp::Recover,
+            "n" => JOp::Fresh,
+            "x" => JOp::Remove,
+            _ => return None,
+        })
+    }
+}
+
+fn gen_journal_case(rng: &mut Rng) -> Vec<JOp> {
+    let n = rng.urange(1, 40);
+    (0..n)
+        .map(|_| match rng.below(20) {
+            0..=11 => JOp::Record(match rng.below(6) {
+                0 => 0,
+                1 => 1022,
+                2 => 255,
+                3 => 256,
+                _ => rng.below(1023) as u16,
+            }),
+            12 | 13 => JOp::Save,
+            14..=16 => JOp::Recover,
+            17 | 18 => JOp::Fresh,
+            _ => JOp::Remove,
+        })
+        .collect()
+}
+
+/// The journal must hand back exactly the segment indices that were recorded,
+/// in order: a lost index means recovery skips a half-compacted segment, an
+/// invented one means it compacts a segment nobody asked for.
+fn run_journal_case(ctx: &Ctx, ops: &[JOp], cnt: &mut Cnt) {
+    let Ok(tmp) = tempfile::tempdir() else {
+        ctx.inconclusive("tempdir failed");
+        return;
+    };
+    let dir = tmp.path();
+    let detail = |upto: usize| json!({"kind":"journal","ops":ops[..=upto].iter().map(JOp::encode).collect::<Vec<_>>()});
+    let mut handle = ExtractorCompactorBackup::new(dir);
+    // what the file on disk must hold (None = no file), and what the handle must report
+    let mut on_disk: Option<Vec<u16>> = None;
+    let mut in_mem: Vec<u16> = Vec::new();
+    let mut recorded = 0u64;
+    for (i, op) in ops.iter().enumerate() {
+        match op {
+            JOp::Record(seg) => {
+                if let Err(e) = handle.record_segment(*seg) {
+                    ctx.violation("C18|compaction-journal|record_segment-failed", "record_segment failed on a writable temp dir", json!({"case": detail(i), "error": e.to_string()}));
+                    return;
+                }
+                in_mem.push(*seg);
+                on_disk.get_or_insert_with(Vec::new).push(*seg);
+                recorded += 1;
+            }
+            JOp::Save => {
+                // only where "write the journal" has one reading: the handle knows everything the file holds
+                if on_disk.as_ref().is_some_and(|d| *d != in_mem) {
+                    cnt.add("journal.save_skipped_handle_does_not_mirror_file", 1);
+                    continue;
+                }
+                if let Err(e) = handle.save() {
+                    ctx.violation("C18|compaction-journal|save-failed", "save failed on a writable temp dir", json!({"case": detail(i), "error": e.to_string()}));
+                    return;
+                }
+                on_disk = Some(in_mem.clone());
+                cnt.add("journal.saves", 1);
+            }
+            JOp::Recover => match ExtractorCompactorBackup::load(dir) {
+                Ok(Some(h)) => {
+                    handle = h;
+                    cnt.add("journal.recoveries_with_file", 1);
+                    match &on_disk {
+                        Some(d) => in_mem = d.clone(),
+                        None => {
+                            ctx.violation("C18|compaction-journal|load-returns-a-journal-although-none-exists", "load returned Some although no journal was written or it was removed", json!({"case": detail(i), "got": handle.segments()}));
+                            return;
+                        }
+                    }
+                }
+                Ok(None) => {
+                    cnt.add("journal.recoveries_without_file", 1);
+                    if let Some(d) = &on_disk {
+                        ctx.violation("C18|compaction-journal|recorded-segments-lost|load-returns-none", "load returned None although segments were recorded and the journal was not removed", json!({"case": detail(i), "recorded": d}));
+                        return;
+                    }
+                    handle = ExtractorCompactorBackup::new(dir);
+                    in_mem.clear();
+                }
+                Err(e) => {
+                    ctx.violation("C18|compaction-journal|load-failed", "load failed on a journal this code wrote", json!({"case": detail(i), "error": e.to_string()}));
+                    return;
+                }
+            },
+            JOp::Fresh => {
+                handle = ExtractorCompactorBackup::new(dir);
+                in_mem.clear();
+            }
+            JOp::Remove => {
+                if let Err(e) = handle.remove() {
+                    ctx.violation("C18|compaction-journal|remove-failed", "remove failed on a writable temp dir", json!({"case": detail(i), "error": e.to_string()}));
+                    return;
+                }
+                on_disk = None;
+                cnt.add("journal.removes", 1);
+            }
+        }
+        // after every step: the handle reports its list, a recovery would see the recorded list
+        if handle.segments() != in_mem.as_slice() {
+            ctx.violation("C18|compaction-journal|segments()-differs-from-recorded-sequence", "the handle's segments() is not the sequence recorded through it (or loaded into it)", json!({"case": detail(i), "got": handle.segments(), "want": in_mem}));
+            return;
+        }
+        let seen = match ExtractorCompactorBackup::load(dir) {
+            Ok(s) => s.map(|h| h.segments().to_vec()),
+            Err(e) => {
+                ctx.violation("C18|compaction-journal|load-failed", "load failed on a journal this code wrote", json!({"case": detail(i), "error": e.to_string()}));
+                return;
+            }
+        };
+        if seen != on_disk {
+            let rel = match (&seen, &on_disk) {
+                (Some(s), Some(d)) if s.len() < d.len() && d.starts_with(s) => "recorded-segments-lost|tail-missing",
+                (Some(s), Some(d)) if s.len() > d.len() => "journal-holds-segments-never-recorded",
+                (Some(_), Some(_)) => "journal-differs-from-recorded-sequence",
+                (None, Some(_)) => "recorded-segments-lost|load-returns-none",
+                _ => "load-returns-a-journal-although-none-exists",
+            };
+            ctx.violation(&format!("C18|compaction-journal|{rel}"), "what a recovery reads from the journal is not the sequence of recorded segment indices", json!({"case": detail(i), "got": seen, "want": on_disk}));
+            return;
+        }
+    }
+    cnt.add("journal.cases", 1);
+    cnt.add("journal.segments_recorded", recorded);
+    let h = mix64(fnv64(b"journal"), fnv64(format!("{:?}", ops.iter().map(JOp::encode).collect::<Vec<_>>()).as_bytes()));
+    if recorded >= 2 {
+        ctx.eval_nontrivial(h);
+    } else {
+        ctx.eval();
+    }
+    // torn tail (crash in the middle of an append): observation only, the statement does not cover it
+    if let Some(d) = &on_disk {
+        if !d.is_empty() {
+            let path = dir.join("extract_bu");
+            if let Ok(bytes) = std::fs::read(&path) {
+                let cut = 1 + (h % 3) as usize;
+                if bytes.len() > cut && std::fs::write(&path, &bytes[..bytes.len() - cut]).is_ok() {
+                    match ExtractorCompactorBackup::load(dir) {
+                        Ok(Some(hh)) if hh.segments() == &d[..d.len() - 1] => cnt.add("journal.torn_tail.complete_entries_kept(observation)", 1),
+                        Ok(Some(_)) => cnt.add("journal.torn_tail.other_list(observation)", 1),
+                        Ok(None) => cnt.add("journal.torn_tail.ignored_entirely(observation)", 1),
+                        Err(_) => cnt.add("journal.torn_tail.load_error(observation)", 1),
+                    }
+                }
+            }
+        }
+    }
+}
+
+// ---------------------------------------------------------------------------
+// part B': span sets at the top of the u64 range (no file can be that long;
+// validate_spans has no file)
+// ---------------------------------------------------------------------------
+
+fn run_huge_span_case(ctx: &Ctx, rng: &mut Rng, cnt: &mut Cnt) {
+    let mut spans: Vec<(u64, u64)> = Vec::new();
+    for _ in 0..rng.urange(0, 3) {
+        spans.push((rng.range(0, 10_000), rng.range(0, 500)));
+    }
+    for _ in 0..rng.urange(1, 3) {
+        let back = rng.range(0, 2000);
+        let len = match rng.below(4) {
+            0 => back,                  // ends exactly at u64::MAX
+            1 => back / 2,
+            2 => rng.range(0, back),
+            _ => back + rng.range(1, 50), // the exclusive end does not fit in 64 bits
+        };
+        spans.push((u64::MAX - back, len));
+    }
+    // offsets beyond 32 bits whose low halves collide with the small spans above
+    for _ in 0..rng.urange(0, 3) {
+        let base = 1u64 << *rng.pick(&[32u32, 33, 40, 48, 62, 63]);
+        spans.push((base + rng.range(0, 10_000), rng.range(0, 500)));
+    }
+    if rng.bool() {
+        rng.shuffle(&mut spans);
+    }
+    let fits = spans.iter().all(|s| s.0.checked_add(s.1).is_some());
+    // classification in 128-bit arithmetic
+    let w = |s: &(u64, u64)| (u128::from(s.0), u128::from(s.0) + u128::from(s.1));
+    let mut overlapping = false;
+    let mut ambiguous = false;
+    for (i, a) in spans.iter().enumerate() {
+        for (j, b) in spans.iter().enumerate() {
+            if i == j {
+                continue;
+            }
+            let ((ao, ae), (bo, be)) = (w(a), w(b));
+            if a.1 > 0 && b.1 > 0 {
+                if ao < be && bo < ae {
+                    overlapping = true;
+                }
+            } else if a.1 == 0 && b.1 > 0 && bo <= ao && ao < be {
+                ambiguous = true;
+            }
+        }
+    }
+    let mut d: Vec<DataSpan> = spans.iter().map(|&(offset, length)| DataSpan { offset, length }).collect();
+    let r = std::panic::catch_unwind(std::panic::AssertUnwindSafe(|| validate_spans(&mut d)));
+    let h = mix64(fnv64(b"huge"), fnv64(format!("{spans:?}").as_bytes()));
+    if spans.len() >= 2 {
+        ctx.eval_nontrivial(h);
+    } else {
+        ctx.eval();
+    }
+    cnt.add("validate_spans.huge_offsets.sets", 1);
+    let detail = json!({"kind":"validate","spans":spans.iter().map(|(o, l)| json!([o.to_string(), l.to_string()])).collect::<Vec<_>>()});
+    if !fits {
+        // a span whose end is not representable: outside the statement
+        match r {
+            Ok(Ok(())) => cnt.add("validate_spans.huge_offsets.end_exceeds_u64.accepted(observation)", 1),
+            Ok(Err(_)) => cnt.add("validate_spans.huge_offsets.end_exceeds_u64.refused(observation)", 1),
+            Err(_) => cnt.add("validate_spans.huge_offsets.end_exceeds_u64.panicked(observation)", 1),
+        }
+        return;
+    }
+    match r {
+        Err(p) => ctx.violation("C18|validate_spans|panic|offsets-beyond-32-bits", "validate_spans panicked on spans whose ends all fit in 64 bits", json!({"case": detail, "panic": vh::monitor::watchdog::panic_message(&p)})),
+        Ok(Ok(())) if overlapping => ctx.violation("C18|validate_spans|overlapping-set-accepted|offsets-beyond-32-bits", "validate_spans accepted an overlapping set near the top of the offset range", json!({"case": detail})),
+        Ok(Err(e)) if !overlapping && !ambiguous => ctx.violation("C18|validate_spans|non-overlapping-set-refused|offsets-beyond-32-bits", "validate_spans refused a non-overlapping set near the top of the offset range", json!({"case": detail, "error": e.to_string()})),
+        Ok(Ok(())) => cnt.add("validate_spans.huge_offsets.valid_accepted", 1),
+        Ok(Err(_)) => cnt.add("validate_spans.huge_offsets.overlap_refused", 1),
+    }
 }
 
 // ---------------------------------------------------------------------------
@@ -909,8 +1555,15 @@ fn run_archive_manager(ctx: &Ctx, rng: &mut Rng, cnt: &mut Cnt) {
         ctx.inconclusive("tempdir failed");
         return;
     };
-    let mut mgr = ArchiveManager::new(tmp.path());
+    // compression applied to the appended objects (the archive holds BLTE containers either way)
+    let (mode_name, mode) = match rng.below(3) {
+        0 => ("none", CompressionMode::None),
+        1 => ("zlib", CompressionMode::ZLib),
+        _ => ("lz4", CompressionMode::LZ4),
+    };
+    let mut mgr = ArchiveManager::with_compression(tmp.path(), mode);
     let mut records: Vec<(u16, u32, u32)> = Vec::new();
+    let mut payloads: Vec<Vec<u8>> = Vec::new();
     let n = rng.urange(8, 24);
     for _ in 0..n {
         let len = match rng.below(4) {
@@ -918,14 +1571,48 @@ fn run_archive_manager(ctx: &Ctx, rng: &mut Rng, cnt: &mut Cnt) {
             1 => rng.urange(100, 10_000),
             _ => rng.urange(50_000, 250_000),
         };
-        let data = rng.bytes(len);
-        match mgr.write_content(&data, false) {
-            Ok((id, off, size, _)) => records.push((id, off, size)),
+        // half of the objects are compressible
+        let data = if rng.bool() { rng.bytes(len) } else { (0..len).map(|i| (i / 97) as u8).collect() };
+        match mgr.write_content(&data, true) {
+            Ok((id, off, size, _)) => {
+                records.push((id, off, size));
+                payloads.push(data);
+            }
             Err(e) => {
                 cnt.add("archive_manager.write_refused(observation)", 1);
                 let _ = e;
             }
         }
+    }
+    cnt.add(&format!("archive_manager.compression.{mode_name}"), 1);
+    // Unused tail: the only way an archive gets one is from outside the manager (a preallocated file, a
+    // writer that died after extending it). The file is extended with zeros, and one more append makes the
+    // manager notice the new size; its write position stays right behind the last record.
+    let mut slack = 0u64;
+    if rng.bool() && !records.is_empty() {
+        let id = records[0].0;
+        let path = tmp.path().join(format!("data.{id:03}"));
+        let len = std::fs::metadata(&path).map(|m| m.len()).unwrap_or(0);
+        slack = match rng.below(4) {
+            0 => rng.range(1, 4096),
+            1 => len / 3 + rng.range(0, 1 << 20),
+            _ => len.max(1 << 20) + rng.range(0, 3 << 20),
+        };
+        let ok = OpenOptions::new().write(true).open(&path).and_then(|f| f.set_len(len + slack)).is_ok();
+        if !ok {
+            ctx.inconclusive("cannot extend an archive file");
+            return;
+        }
+        let n_extra = rng.urange(1, 5000);
+        let data = rng.bytes(n_extra);
+        match mgr.write_content(&data, true) {
+            Ok((id, off, size, _)) => {
+                records.push((id, off, size));
+                payloads.push(data);
+            }
+            Err(_) => cnt.add("archive_manager.write_refused(observation)", 1),
+        }
+        cnt.add("archive_manager.archives_with_unused_tail", 1);
     }
     let snapshot = |dir: &Path| -> HashMap<u16, Vec<u8>> {
         let mut m = HashMap::new();
@@ -938,6 +1625,11 @@ fn run_archive_manager(ctx: &Ctx, rng: &mut Rng, cnt: &mut Cnt) {
         }
         m
     };
+    // every live object as the manager serves it BEFORE compaction (objects that are already
+    // unreadable are another property's business and are left out)
+    let readable: Vec<bool> = records.iter().zip(&payloads).map(|((id, off, size), p)| matches!(mgr.read_content(*id, *off, *size), Ok(ref d) if d == p)).collect();
+    cnt.add("archive_manager.live_objects_readable_before_compact", readable.iter().filter(|r| **r).count() as u64);
+    cnt.add("archive_manager.live_objects_unreadable_before_compact(observation)", readable.iter().filter(|r| !**r).count() as u64);
     let before = snapshot(tmp.path());
     let total: usize = before.values().map(Vec::len).sum();
     let r = mgr.compact();
@@ -949,6 +1641,26 @@ fn run_archive_manager(ctx: &Ctx, rng: &mut Rng, cnt: &mut Cnt) {
     if total > 1024 * 1024 {
         cnt.add("archive_manager.compact.calls_on_archives>1MiB", 1);
     }
+    // compare every live object's decoded bytes through a manager after a compaction
+    let compare_all = |m: &ArchiveManager, who: &str, cnt: &mut Cnt| -> bool {
+        for (i, ((id, off, size), p)) in records.iter().zip(&payloads).enumerate() {
+            if !readable[i] {
+                continue;
+            }
+            match m.read_content(*id, *off, *size) {
+                Ok(d) if d == *p => cnt.add(&format!("archive_manager.live_objects_compared_after_compact.{who}"), 1),
+                Ok(d) => {
+                    ctx.violation(&format!("C18|ArchiveManager::compact|live-object-bytes-changed-after-compact|{who}"), "after compact() a live object decodes to other bytes than before", json!({"archive": id, "offset": off, "size": size, "len_before": p.len(), "len_after": d.len(), "compression": mode_name}));
+                    return false;
+                }
+                Err(e) => {
+                    ctx.violation(&format!("C18|ArchiveManager::compact|live-object-unreadable-after-compact|{who}"), "after compact() a live object that was readable before can no longer be read", json!({"archive": id, "offset": off, "size": size, "error": e.to_string(), "compression": mode_name}));
+                    return false;
+                }
+            }
+        }
+        true
+    };
     match r {
         Ok(stats) => {
             cnt.add("archive_manager.compact.archives_compacted", stats.archives_compacted as u64);
@@ -972,6 +1684,74 @@ fn run_archive_manager(ctx: &Ctx, rng: &mut Rng, cnt: &mut Cnt) {
                     return;
                 }
             }
+            if !compare_all(&mgr, "same-manager", cnt) {
+                return;
+            }
+            if stats.archives_compacted > 0 {
+                cnt.add("archive_manager.compact.runs_that_truncated_an_archive", 1);
+                // "reports the bytes saved truthfully"
+                let (lb, la): (u64, u64) = (before.values().map(|b| b.len() as u64).sum(), after.values().map(|b| b.len() as u64).sum());
+                if stats.bytes_reclaimed != lb - la.min(lb) || la > lb {
+                    ctx.violation("C18|ArchiveManager::compact|bytes-reclaimed-differs-from-old-length-minus-new-length", "compact() reports other bytes reclaimed than the archive files shrank by", json!({"reported": stats.bytes_reclaimed, "len_before": lb, "len_after": la, "compression": mode_name}));
+                    return;
+                }
+                // the archive must keep working: an append after the compaction must not land on live data
+                let n_extra = rng.urange(1, 3000);
+                let data = rng.bytes(n_extra);
+                if let Ok((id, off, size, _)) = mgr.write_content(&data, true) {
+                    match mgr.read_content(id, off, size) {
+                        Ok(d) if d == data => {}
+                        _ => cnt.add("archive_manager.append_after_compact_not_readable(observation)", 1),
+                    }
+                    if !compare_all(&mgr, "same-manager-after-a-later-append", cnt) {
+                        return;
+                    }
+                }
+            } else if slack > 0 {
+                cnt.add("archive_manager.compact.unused_tail_left_alone", 1);
+            }
+        }
+        Err(e) => {
+            cnt.add("archive_manager.compact.error(observation)", 1);
+            let _ = e;
+        }
+    }
+    // the other way into compaction: a manager that OPENED existing archives (open_all), compacts, and serves the objects
+    drop(mgr);
+    let Ok(rt) = tokio::runtime::Builder::new_current_thread().enable_all().build() else {
+        ctx.inconclusive("tokio runtime");
+        return;
+    };
+    let mut mgr2 = ArchiveManager::with_compression(tmp.path(), mode);
+    if let Err(e) = rt.block_on(mgr2.open_all()) {
+        cnt.add("archive_manager.open_all_failed(observation)", 1);
+        let _ = e;
+        return;
+    }
+    let still: Vec<bool> = records.iter().zip(&payloads).map(|((id, off, size), p)| matches!(mgr2.read_content(*id, *off, *size), Ok(ref d) if d == p)).collect();
+    if still.iter().zip(&readable).any(|(s, r)| *r && !*s) {
+        // reopening alone lost an object: not a compaction matter (C04); do not attribute it to compact()
+        cnt.add("archive_manager.object_unreadable_after_reopen(observation)", 1);
+        return;
+    }
+    let before2 = snapshot(tmp.path());
+    match mgr2.compact() {
+        Ok(stats) => {
+            cnt.add("archive_manager.compact.calls_on_reopened_manager", 1);
+            cnt.add("archive_manager.compact.archives_compacted", stats.archives_compacted as u64);
+            let after2 = snapshot(tmp.path());
+            if before2 != after2 && stats.archives_compacted == 0 {
+                ctx.violation("C18|ArchiveManager::compact|archive-files-changed-although-nothing-was-compacted", "compact() reports no compacted archive but an archive file changed", json!({"compression": mode_name}));
+                return;
+            }
+            for (id, b) in &before2 {
+                let used = records.iter().filter(|r| r.0 == *id).map(|r| r.1 as usize + r.2 as usize).max().unwrap_or(0).min(b.len());
+                if after2.get(id).is_none_or(|a| a.len() < used || a[..used] != b[..used]) {
+                    ctx.violation("C18|ArchiveManager::compact|appended-record-bytes-changed-on-disk", "after compact() on a re-opened manager the bytes up to the last appended record differ from before", json!({"archive": id, "compression": mode_name}));
+                    return;
+                }
+            }
+            let _ = compare_all(&mgr2, "reopened-manager", cnt);
         }
         Err(e) => {
             cnt.add("archive_manager.compact.error(observation)", 1);
@@ -1015,6 +1795,36 @@ fn replay(ctx: &Ctx, d: &Value) {
             let mut rng = ctx.rng(0);
             run_mover_case(ctx, &mut rng, tmp.path(), &mut cnt, Some(case));
         }
+        "merge" => {
+            let c = MergeCase {
+                salt: case.get("salt").and_then(Value::as_str).and_then(|s| s.parse().ok()).unwrap_or(0),
+                max_segments: case.get("max_segments").and_then(Value::as_u64).unwrap_or(2) as u16,
+                steps: case.get("steps").and_then(Value::as_array).map(|a| a.iter().filter_map(|o| MStep::decode(o.as_str()?)).collect()).unwrap_or_default(),
+                reload: case.get("reload").and_then(Value::as_bool).unwrap_or(false),
+                threshold: case.get("threshold").and_then(Value::as_f64).unwrap_or(0.5),
+                size_sel: case.get("size_sel").and_then(Value::as_u64).unwrap_or(0) as u8,
+                budget: case.get("budget").and_then(Value::as_u64).unwrap_or(0) as usize,
+                defrag_keep: case.get("defrag_keep").and_then(Value::as_u64).unwrap_or(4) as u8,
+            };
+            run_merge_case(ctx, &c, &mut cnt);
+        }
+        "journal" => {
+            let ops: Vec<JOp> = case.get("ops").and_then(Value::as_array).map(|a| a.iter().filter_map(|o| JOp::decode(o.as_str()?)).collect()).unwrap_or_default();
+            run_journal_case(ctx, &ops, &mut cnt);
+        }
+        "validate" => {
+            // span sets of part B / B' carry their spans; re-judged by the same code paths
+            let spans: Vec<(u64, u64)> = case.get("spans").and_then(Value::as_array).map(|a| a.iter().filter_map(|p| {
+                let g = |v: &Value| v.as_u64().or_else(|| v.as_str().and_then(|s| s.parse().ok()));
+                Some((g(p.get(0)?)?, g(p.get(1)?)?))
+            }).collect()).unwrap_or_default();
+            let mut d: Vec<DataSpan> = spans.iter().map(|&(offset, length)| DataSpan { offset, length }).collect();
+            let r = std::panic::catch_unwind(std::panic::AssertUnwindSafe(|| validate_spans(&mut d)));
+            println!("validate_spans({spans:?}) -> {}", match &r { Ok(Ok(())) => "Ok".to_string(), Ok(Err(e)) => format!("Err({e})"), Err(_) => "panic".to_string() });
+            if r.is_err() {
+                ctx.violation("C18|validate_spans|panic|offsets-beyond-32-bits", "validate_spans panicked", json!({"case": case}));
+            }
+        }
         _ => {
             ctx.inconclusive("replay: this finding has no stored case; re-run the tier with the recorded seed");
         }
@@ -1027,7 +1837,7 @@ fn replay(ctx: &Ctx, d: &Value) {
 fn main() {
     let ctx = Ctx::init("C18", "exploration");
     ctx.set_rule(
-        "A: one case = (file of 0..=600 KiB position-dependent bytes, span set, buffer budget) given to extract_compact_segment on a real file; span sets come from shape generators (adjacent from 0, adjacent after a gap, gapped, first span after 0, one span larger than the I/O buffer preceded by a smaller gap, zero-length spans, single spans, overlapping variants derived from valid sets: identical / contained / one shared byte / partial, beyond-EOF, empty list), input order shuffled in half of the cases, budgets {0,128Ki,1Mi,4Mi,200000,256Ki}; non-trivial = at least one live byte has to move or an overlap has to be refused. B: validate_spans / DataSpan::overlaps on the same generators. C: CompactionFileMover::move_data / compact_in_place with random (src,dst,len) against a splice/memmove model; non-trivial = len>0. D: one case = (0..=40 segments with write positions around 0, threshold*size-1/0/+1, full, random; frozen/thawed mixes; segment sizes 2..2^30; thresholds 0..1.5) given to plan_archive_merge and judged by an interval model per destination seeded with [0,write_position); non-trivial = plan has at least one move. E: ArchiveManager::compact after real appends. distinct = hash of the concrete case parameters.",
+        "A: one case = (file of 0..=600 KiB position-dependent bytes, span set, buffer budget) given to extract_compact_segment on a real file; span sets come from shape generators (adjacent from 0, adjacent after a gap, gapped, first span after 0, one span larger than the I/O buffer preceded by a smaller gap, zero-length spans, single spans, overlapping variants derived from valid sets: identical / contained / one shared byte / partial, beyond-EOF, empty list), input order shuffled in half of the cases, budgets {0,128Ki,1Mi,4Mi,200000,256Ki}; non-trivial = at least one live byte has to move or an overlap has to be refused. B: validate_spans / DataSpan::overlaps on the same generators. C: CompactionFileMover::move_data / compact_in_place with random (src,dst,len) against a splice/memmove model; non-trivial = len>0. D: one case = (0..=40 segments with write positions around 0, threshold*size-1/0/+1, full, random; frozen/thawed mixes; segment sizes 2..2^30; thresholds 0..1.5) given to plan_archive_merge and judged by an interval model per destination seeded with [0,write_position); non-trivial = plan has at least one move. E: ArchiveManager::compact after real appends (None/ZLib/LZ4 objects, half of the archives with an unused tail produced outside the manager so that the truncation runs, then a second manager opened on the directory): every object's decoded bytes before/after. F: one case = (allocation/freeze/thaw script for the real SegmentAllocator on real segment files, reload or not, threshold, segment size, buffer budget): the merge plan is judged by the interval model, executed with move_data and every live object compared at its original and planned location; one segment per case is defragmented with extract_compact_segment; non-trivial = non-empty plan. G: one case = a history of record_segment/save/load/new/remove on the extract-compact journal; non-trivial = at least two recorded segments. B': validate_spans on sets with offsets beyond 32 bits, classified in 128-bit arithmetic. distinct = hash of the concrete case parameters.",
     );
     ctx.assume("the harness' interval classification of span sets (two positive-length spans sharing a byte = overlapping) is the meaning of 'overlapping' in the statement; zero-length spans inside a span are left open");
     ctx.assume("the file system of the temp dir returns what was written (page cache), no fault injection in this property");
@@ -1043,9 +1853,12 @@ fn main() {
     let n_validate: usize = ctx.pick(120_000, 400_000);
     let n_mover: usize = ctx.pick(6_000, 20_000);
     let n_plan: usize = ctx.pick(80_000, 500_000);
-    let n_am: usize = ctx.pick(8, 32);
+    let n_am: usize = ctx.pick(32, 128);
+    let n_merge: usize = ctx.pick(1_500, 12_000);
+    let n_journal: usize = ctx.pick(3_000, 20_000);
+    let n_huge: usize = ctx.pick(20_000, 100_000);
     let next = AtomicUsize::new(0);
-    let total = n_extract + n_validate + n_mover + n_plan + n_am;
+    let total = n_extract + n_validate + n_mover + n_plan + n_am + n_merge + n_journal + n_huge;
     std::thread::scope(|s| {
         for _ in 0..threads {
             let next = &next;
@@ -1076,8 +1889,16 @@ fn main() {
                         } else if ix < n_extract + n_validate + n_mover + n_plan {
                             let c = gen_plan_case(&mut rng);
                             run_plan_case(ctx, &c, &mut cnt);
-                        } else {
+                        } else if ix < n_extract + n_validate + n_mover + n_plan + n_am {
                             run_archive_manager(ctx, &mut rng, &mut cnt);
+                        } else if ix < n_extract + n_validate + n_mover + n_plan + n_am + n_merge {
+                            let c = gen_merge_case(&mut rng);
+                            run_merge_case(ctx, &c, &mut cnt);
+                        } else if ix < n_extract + n_validate + n_mover + n_plan + n_am + n_merge + n_journal {
+                            let ops = gen_journal_case(&mut rng);
+                            run_journal_case(ctx, &ops, &mut cnt);
+                        } else {
+                            run_huge_span_case(ctx, &mut rng, &mut cnt);
                         }
                     }
                 }
@@ -1102,6 +1923,24 @@ fn main() {
         "plan.populations_mixed_frozen_thawed",
         "plan.populations_on_both_sides_of_threshold",
         "archive_manager.compact.calls_on_archives>1MiB",
+        // coverage-driven extension
+        "archive_manager.live_objects_compared_after_compact.same-manager",
+        "archive_manager.live_objects_compared_after_compact.reopened-manager",
+        "archive_manager.compact.calls_on_reopened_manager",
+        "archive_manager.compact.runs_that_truncated_an_archive",
+        "archive_manager.compact.unused_tail_left_alone",
+        "merge.plans_executed_on_real_segment_files",
+        "merge.live_objects_compared_at_planned_location",
+        "merge.populations_from_load_existing",
+        "merge.populations_from_live_allocator",
+        "merge.boundary.moves_longer_than_io_buffer",
+        "defrag.live_objects_compared_at_new_offset",
+        "defrag.segments_that_shrank",
+        "journal.recoveries_with_file",
+        "journal.saves",
+        "journal.removes",
+        "validate_spans.huge_offsets.valid_accepted",
+        "validate_spans.huge_offsets.overlap_refused",
     ];
     for k in need {
         if ctx.get_obs(k) == 0 {
